@@ -7,9 +7,9 @@ props = [json.loads(l) for l in open(os.path.join(ROOT, 'properties.jsonl'))]
 # id -> (category, technique, level text, level note, design_ref)
 CLAIMS = {
  "C01": ("fault_enumeration",
-         "crash-image enumeration over SimDir operation logs of generated histories (proptest) against a recovery predicate and the sequential model",
+         "crash-image enumeration over SimDir operation logs of generated histories (proptest) against a recovery predicate and the sequential model; plus system-call traces (strace) of generated Directory programs and indexing histories on the real MmapDirectory checked against the durability contract the enumeration assumes",
          "Every storage-operation boundary (thorough) / every boundary next to a metadata, updater or merge operation plus a stride (quick) of generated histories is combined with the persistence outcomes the property quantifies over (MIN, MAX, renames-only, unlinks-only, creates-only, ordered prefixes, independent random subsets; un-synced bytes lost/empty/truncated/full) and each image must open, expose exactly one acceptable commit, pass checksums, equal the model and accept writer+commit+gc.",
-         "durability semantics are a model of the Directory contract as MmapDirectory implements it (checked by reading its syscalls), not an executed power cut; crash points are storage-operation boundaries; schedules of background threads are those the OS produced in the single run of each history",
+         "durability semantics are a model of the Directory contract (bytes durable after terminate, directory entries after sync_directory, atomic_write = synced temp file + rename); that MmapDirectory implements it is checked at the system-call level by sub mmap_syscalls on generated programs; not an executed power cut; crash points are storage-operation boundaries; schedules of background threads are those the OS produced in the single run of each history",
          "DESIGN.md §3 C01"),
  "C02": ("exploration",
          "model-based stateful testing: generated operation histories vs a pure sequential model (proptest), plus concurrent producers with per-producer sequential replay",
